@@ -296,7 +296,7 @@ def real_decode(uni: B.Universe, clazz: str, data, config: dict, via="dict"):
 # ---- dict.bindkeys: the real bind_dataclass loop with the value binder stubbed out
 def export_dvars(meta):
     return [
-        {"name": v.name, "local_name": v.local_name, "wrapper": v.wrapper, "is_list": bool(v.list_element or v.tokens), "init": bool(v.init)}
+        {"name": v.name, "local_name": v.local_name, "wrapper": v.wrapper, "is_list": bool(v.list_element or v.tokens), "list_element": bool(v.list_element), "init": bool(v.init)}
         for v in meta.get_all_vars()
     ]
 
@@ -304,6 +304,8 @@ def export_dvars(meta):
 def shape_of(value):
     from xsdata.utils import collections
 
+    if value is None:
+        return "null"
     if collections.is_array(value):
         return "array"
     if isinstance(value, dict):
@@ -314,6 +316,8 @@ def shape_of(value):
 def shape_value(shape, key):
     """a JSON value of the given shape whose leaves name the key it sits under"""
     tag = "K:" + key
+    if shape == "null":
+        return None
     if shape == "scalar":
         return tag
     if shape == "array":
@@ -695,3 +699,77 @@ def real_bestcfg(keys, cands, config):
         except ParserError:
             steps.append({"err": "ParserError"})
     return {"ok": {"steps": steps, "after": [getattr(cfg, k) for k in FLAGS]}}
+
+
+# --------------------------------------------------------------------------
+# the binding metadata shared by the parses of one XmlContext
+# --------------------------------------------------------------------------
+def snapshot(o, _depth=0):
+    """every slot / attribute of an object graph as plain data (classes and callables by name).
+    `XmlVar.namespace_matches` — the memo of the pure `_match_namespace`, subject of C14 — is
+    replaced by the list of its entries that do NOT equal the un-memoised answer."""
+    if _depth > 12:
+        return "<deep>"
+    if o is None or isinstance(o, (str, int, float, bool, bytes)):
+        return o
+    if isinstance(o, type):
+        return ("type", o.__module__.split("vp_models_")[0] + o.__qualname__)
+    if isinstance(o, (list, tuple)):
+        return [snapshot(x, _depth + 1) for x in o]
+    if isinstance(o, (set, frozenset)):
+        return ("set", sorted(repr(snapshot(x, _depth + 1)) for x in o))
+    if isinstance(o, dict):
+        return ("dict", [[snapshot(k, _depth + 1), snapshot(v, _depth + 1)] for k, v in o.items()])
+    if callable(o) and not hasattr(o, "__slots__"):
+        return ("callable", getattr(o, "__qualname__", type(o).__name__))
+    names = []
+    for k in type(o).__mro__:
+        s = k.__dict__.get("__slots__", ())
+        names += [s] if isinstance(s, str) else list(s)
+    names += list(getattr(o, "__dict__", {}))
+    out = []
+    for n in dict.fromkeys(names):
+        if not hasattr(o, n):
+            continue
+        v = getattr(o, n)
+        if n == "namespace_matches" and hasattr(o, "_match_namespace"):
+            v = [[q, b] for q, b in (v or {}).items() if o._match_namespace(q) != b]
+        out.append([n, snapshot(v, _depth + 1)])
+    return (type(o).__name__, out)
+
+
+def real_metastate(uni: B.Universe, clazz: str, warm, calls):
+    """parser calls in order on ONE XmlContext (warmed by a strict parse of `warm`): the
+    outcomes and the classes whose XmlMeta object graph differs afterwards"""
+    from xsdata.exceptions import ConverterWarning
+    from xsdata.formats.dataclass.context import XmlContext
+    from xsdata.formats.dataclass.parsers.bases import NodeParser
+    from xsdata.formats.dataclass.parsers.config import ParserConfig
+    from xsdata.formats.dataclass.parsers.mixins import EventsHandler
+
+    ctx = XmlContext(models_package=uni.modname)
+
+    def run(tree, config):
+        p = NodeParser(context=ctx, config=ParserConfig(**config), handler=EventsHandler)
+        with warnings.catch_warnings(record=True) as w:
+            warnings.simplefilter("always")
+            try:
+                obj = p.parse(B.tree_events(tree), uni.classes[clazz])
+            except Exception as e:  # noqa: BLE001
+                return B.classify_exc(e)
+        return {"ok": {"value": uni.to_val(obj), "warnings": sum(1 for x in w if issubclass(x.category, ConverterWarning))}}
+
+    def metas():
+        # the cache is keyed by (class, parent namespace) since /repo b368559 (by class before)
+        out = {}
+        for k, m in ctx.cache.items():
+            cls, pns = k if isinstance(k, tuple) else (k, None)
+            out[(cls.__name__, pns)] = snapshot(m)
+        return out
+
+    run(warm, {})
+    before = metas()
+    results = [run(c["tree"], c["config"]) for c in calls]
+    after = metas()
+    changed = sorted({k[0] for k in before if after.get(k) != before[k]})
+    return {"ok": {"results": results, "changed": changed}}
